@@ -113,7 +113,11 @@ def history (j : Json) : Except String Json := do
   let probe ← itemOfJson (← j.getObjVal? "probe")
   let ops ← (← getArr j "ops").toList.mapM poolOpOfJson
   let probes := addProbes [probe] init
-  let c := if via == "from_sequence" then fromSequence init root sr
+  let initOther := match j.getObjVal? "init_other" with
+    | .ok (.bool b) => b
+    | _ => false
+  let c := if initOther then constructOther
+           else if via == "from_sequence" then fromSequence init root sr
            else if via == "setattr" then construct init false true
            else construct init root sr
   match c with
